@@ -1402,6 +1402,58 @@ example : (addCallback init 1 0).t ≤ 2 ∧ (evolveUntil selfNow 3 (addCallback
     InvQ (addCallback init 1 0) :=
   ⟨by decide +kernel, by decide +kernel, (inv_addCallback inv_init 1 0 (by simp [init])).toQ⟩
 
+/-! #### … and a callback that raises *before* doing anything (`loopX`, the executed definition) -/
+
+/-- without raising callbacks `loopX` is `loop` -/
+theorem loopX_no_raise (kids : Entry → List (Rat × Nat)) (T : Rat) (fuel : Nat) (s : Sys) :
+    loopX kids (fun _ => false) T fuel s = ⟨loop kids T fuel s, none⟩ :=
+  loopX_no_raise' kids T fuel s
+
+/-- **The state after an exception, exactly.**  If the callback of entry `e` raises, the run up to
+there (status, clock, queue, counter, trace) is the run of `loop` whose fuel runs out at that
+callback, with the callback of `e` scheduling nothing; `e` is an entry that raises.  Hence every
+hypothesis-free theorem of this file (conservation, exactly-once, tiling, clock lag) holds of the
+interrupted run, and `interrupted_resume` / `interrupted_entry_lost` apply to it. -/
+theorem raise_eq_fuel_out (kids : Entry → List (Rat × Nat)) (raises : Entry → Bool) (T : Rat)
+    (fuel : Nat) (s : Sys) (e : Entry) (h : (loopX kids raises T fuel s).raisedAt = some e) :
+    raises e = true ∧
+    (loopX kids raises T fuel s).run =
+      loop (kidsExcept kids e) T (fired (loopX kids raises T fuel s).run.trace).length s :=
+  ⟨loopX_raisedAt_raises kids raises T fuel s e h, loopX_raise_eq_loop' kids raises T fuel s e h⟩
+
+/-- **The entry whose callback raised is lost, the clock stands at its stop**: it is the last callback
+in the trace, it is not in the queue left behind, and no other executed callback is. -/
+theorem raise_entry_lost (kids : Entry → List (Rat × Nat)) (raises : Entry → Bool) (T : Rat)
+    (fuel : Nat) (s : Sys) (hi : InvQ s) (e : Entry)
+    (h : (loopX kids raises T fuel s).raisedAt = some e) :
+    (loopX kids raises T fuel s).run.status = .outOfFuel ∧
+    (∀ x ∈ fired (loopX kids raises T fuel s).run.trace, x ∉ (loopX kids raises T fuel s).run.s.queue) := by
+  have hb := (raise_eq_fuel_out kids raises T fuel s e h).2
+  have hst : (loopX kids raises T fuel s).run.status = .outOfFuel := by
+    clear hb
+    induction fuel generalizing s with
+    | zero => simp [loopX]
+    | succ fuel ih =>
+      match hq : s.queue with
+      | [] => simp [loopX, hq] at h
+      | x :: rest =>
+        by_cases ht : x.time < T
+        · by_cases hr : raises x = true
+          · simp only [loopX, hq, ht, if_true, hr]
+          · simp only [loopX, hq, ht, if_true, hr, Bool.false_eq_true, if_false] at h ⊢
+            have hi' : InvQ (addAll (advance { s with queue := rest } (x.time - s.t)).1 (kids x)) :=
+              (next_invQ hi hq : InvQ (next kids s x rest))
+            exact ih _ hi' h
+        · simp [loopX, hq, ht] at h
+  refine ⟨hst, ?_⟩
+  have hst' := hst
+  rw [hb] at hst'
+  rw [hb]
+  exact (interrupted_entry_lost (kidsExcept kids e) T _ s hi hst').2
+
+example : (loopX noKids (fun e => e.ctr == 0) 2 5 (addCallback init 1 0)).raisedAt = some ⟨1, 0, 0⟩ := by
+  decide +kernel
+
 /-! ### Round 5 — the termination criterion the code has, with an explicit fuel
 
 If every callback due before the target schedules its children at least `δ > 0` after its own time
